@@ -213,6 +213,23 @@ fn set_values(t: Ty) -> [PV; 2] {
     }
 }
 
+/// A well-typed value that the fallible setters (interface B2) refuse with an error.
+fn refused_value(t: Ty) -> PV {
+    match t {
+        Ty::U => PV::U(999),
+        Ty::S => PV::S("refuse".into()),
+        Ty::AS => PV::AS(vec!["refuse".into()]),
+        Ty::US => PV::US(999, "refuse".into()),
+    }
+}
+fn refuses<T: Rusty + Clone>(t: Ty, v: &T) -> zbus::fdo::Result<()> {
+    if v.clone().to_pv() == refused_value(t) {
+        Err(zbus::fdo::Error::InvalidArgs("refused by the setter".into()))
+    } else {
+        Ok(())
+    }
+}
+
 /// Values whose D-Bus type is not the property's.
 fn wrong_kinds(t: Ty) -> &'static [&'static str] {
     match t {
@@ -365,21 +382,21 @@ impl B2 {
     #[zbus(property)]
     fn rw_true(&self) -> Vec<String> { self.rw_true.lock().unwrap().clone() }
     #[zbus(property)]
-    fn set_rw_true(&mut self, v: Vec<String>) -> zbus::fdo::Result<()> { *self.rw_true.get_mut().unwrap() = v; Ok(()) }
+    fn set_rw_true(&mut self, v: Vec<String>) -> zbus::fdo::Result<()> { refuses(Ty::AS, &v)?; *self.rw_true.get_mut().unwrap() = v; Ok(()) }
     #[zbus(property(emits_changed_signal = "invalidates"))]
     fn rw_inval(&self) -> (u32, String) { self.rw_inval.lock().unwrap().clone() }
     #[zbus(property)]
-    fn set_rw_inval(&mut self, v: (u32, String)) -> zbus::fdo::Result<()> { *self.rw_inval.get_mut().unwrap() = v; Ok(()) }
+    fn set_rw_inval(&mut self, v: (u32, String)) -> zbus::fdo::Result<()> { refuses(Ty::US, &v)?; *self.rw_inval.get_mut().unwrap() = v; Ok(()) }
     #[zbus(property(emits_changed_signal = "const"))]
     fn rw_const(&self) -> u32 { self.rw_const.lock().unwrap().clone() }
     #[zbus(property)]
-    fn set_rw_const(&mut self, v: u32) -> zbus::fdo::Result<()> { *self.rw_const.get_mut().unwrap() = v; Ok(()) }
+    fn set_rw_const(&mut self, v: u32) -> zbus::fdo::Result<()> { refuses(Ty::U, &v)?; *self.rw_const.get_mut().unwrap() = v; Ok(()) }
     #[zbus(property(emits_changed_signal = "false"))]
     fn rw_false(&self) -> String { self.rw_false.lock().unwrap().clone() }
     #[zbus(property)]
-    fn set_rw_false(&mut self, v: String) -> zbus::fdo::Result<()> { *self.rw_false.get_mut().unwrap() = v; Ok(()) }
+    fn set_rw_false(&mut self, v: String) -> zbus::fdo::Result<()> { refuses(Ty::S, &v)?; *self.rw_false.get_mut().unwrap() = v; Ok(()) }
     #[zbus(property)]
-    fn set_wo(&mut self, v: Vec<String>) -> zbus::fdo::Result<()> { *self.wo.get_mut().unwrap() = v; Ok(()) }
+    fn set_wo(&mut self, v: Vec<String>) -> zbus::fdo::Result<()> { refuses(Ty::AS, &v)?; *self.wo.get_mut().unwrap() = v; Ok(()) }
 }
 impl Bank for B2 {
     fn fresh() -> Self { B2 { ro_true: Mutex::new(init(Ty::AS, 0).into_rust()), ro_inval: Mutex::new(init(Ty::US, 1).into_rust()), ro_const: Mutex::new(init(Ty::U, 2).into_rust()), ro_false: Mutex::new(init(Ty::S, 3).into_rust()), rw_true: Mutex::new(init(Ty::AS, 4).into_rust()), rw_inval: Mutex::new(init(Ty::US, 5).into_rust()), rw_const: Mutex::new(init(Ty::U, 6).into_rust()), rw_false: Mutex::new(init(Ty::S, 7).into_rust()), wo: Mutex::new(init(Ty::AS, 8).into_rust()) } }
@@ -442,6 +459,8 @@ enum POp {
     SetWrong(usize, &'static str),
     SetUnknown,
     SetRo(usize),
+    /// A well-typed value for a writable property whose setter returns an error for it.
+    SetRefused(usize),
 }
 
 impl POp {
@@ -453,11 +472,12 @@ impl POp {
             POp::SetWrong(..) => "set-wrong-type",
             POp::SetUnknown => "set-unknown",
             POp::SetRo(_) => "set-read-only",
+            POp::SetRefused(_) => "set-refused-by-setter",
         }
     }
     fn prop(&self) -> Option<usize> {
         match self {
-            POp::Get(j) | POp::Set(j, _) | POp::SetWrong(j, _) | POp::SetRo(j) => Some(*j),
+            POp::Get(j) | POp::Set(j, _) | POp::SetWrong(j, _) | POp::SetRo(j) | POp::SetRefused(j) => Some(*j),
             _ => None,
         }
     }
@@ -469,6 +489,7 @@ impl POp {
             POp::SetWrong(j, k) => format!("Set {} <{k}>", MODES[*j].2),
             POp::SetUnknown => "Set Nope 1".into(),
             POp::SetRo(j) => format!("Set {} (read-only)", MODES[*j].2),
+            POp::SetRefused(j) => format!("Set {} <value the setter refuses>", MODES[*j].2),
         }
     }
     fn to_json(&self) -> J {
@@ -479,6 +500,7 @@ impl POp {
             POp::SetWrong(j, k) => json!({"op":"set-wrong-type","prop":MODES[*j].2,"wrong":k}),
             POp::SetUnknown => json!({"op":"set-unknown"}),
             POp::SetRo(j) => json!({"op":"set-read-only","prop":MODES[*j].2}),
+            POp::SetRefused(j) => json!({"op":"set-refused-by-setter","prop":MODES[*j].2}),
         }
     }
     fn from_json(v: &J, k: usize) -> Option<POp> {
@@ -494,6 +516,7 @@ impl POp {
             }
             "set-unknown" => Some(POp::SetUnknown),
             "set-read-only" => Some(POp::SetRo(j()?)),
+            "set-refused-by-setter" => Some(POp::SetRefused(j()?)),
             _ => None,
         }
     }
@@ -549,6 +572,12 @@ fn alphabet(k: usize, n_values: usize) -> Vec<POp> {
     v.push(POp::SetUnknown);
     for j in (0..MODES.len()).filter(|j| !writable(*j)) {
         v.push(POp::SetRo(j));
+    }
+    if SETTER_STYLE[k].contains("Result") {
+        // only this interface's setters can fail
+        for j in (0..MODES.len()).filter(|j| writable(*j)) {
+            v.push(POp::SetRefused(j));
+        }
     }
     v
 }
@@ -626,6 +655,7 @@ async fn do_op(c: Connection, k: usize, op: POp) -> PRes {
         POp::SetWrong(j, w) => set(&c, k, MODES[j].2, wrong_value(w)).await,
         POp::SetUnknown => set(&c, k, "Nope", Value::U32(1)).await,
         POp::SetRo(j) => set(&c, k, MODES[j].2, set_values(ty_of(k, j))[0].to_value()).await,
+        POp::SetRefused(j) => set(&c, k, MODES[j].2, refused_value(ty_of(k, j)).to_value()).await,
     }
 }
 
@@ -870,6 +900,7 @@ fn check(k: usize, h: &[POp], model: &[PV], res: &Result<PRes, (String, String)>
         Some(POp::SetWrong(_, w)) => *w,
         Some(POp::SetUnknown) => "unknown-property",
         Some(POp::SetRo(_)) => "read-only-property",
+        Some(POp::SetRefused(_)) => "value-refused-by-setter",
         _ => "",
     };
     let must_reject = !invalid.is_empty();
@@ -917,7 +948,7 @@ fn check(k: usize, h: &[POp], model: &[PV], res: &Result<PRes, (String, String)>
                 out.push(base(Violation::new("set-updates-writable", format!("[{hs}] a well-typed Set of a writable property was answered with {}", res.show()), replay.clone())).feat("effect", "rejected"));
             }
         }
-        Some(POp::SetWrong(..)) | Some(POp::SetUnknown) | Some(POp::SetRo(_)) => {
+        Some(POp::SetWrong(..)) | Some(POp::SetUnknown) | Some(POp::SetRo(_)) | Some(POp::SetRefused(_)) => {
             accepted_invalid = !matches!(res, PRes::Err(_));
         }
         None => {}
